@@ -4,7 +4,8 @@
 (*           remainders, both openers, with/without anchors, several commit *)
 (*           fees, dust limits either way round) x every fee of a grid tied *)
 (*           to the thresholds (0, dust, payer's funds -/+, capacity +) x   *)
-(*           either payer: the close both sides build.                      *)
+(*           either payer: the close both sides build, through the legacy   *)
+(*           API (CloseAt) and as one round of the RBF-coop flow (RbfRound).*)
 (*  NegSpec: every pair of ideal fees in Lo..Hi (step Step) within each     *)
 (*           other's cap, default and tightest opener cap, legacy and       *)
 (*           taproot rule: the whole negotiation.                           *)
@@ -39,13 +40,15 @@ TxInit == /\ ch \in Chans
           /\ tx = [p \in P |-> NoTx]
           /\ NegIdle
 TxNext == /\ \A p \in P : tx[p] = NoTx
-          /\ \E y \in P : \E f \in FeeGrid(y) : CloseAt(f, y)
+          /\ \E y \in P : \E f \in FeeGrid(y) \cup Around(Sat(ch.view[y].our)) : CloseAt(f, y) \/ RbfRound(f, y)
           /\ UNCHANGED negVars
 TxSpec == TxInit /\ [][TxNext]_vars
 
 \* vacuity guards: every outcome class is reachable (checked as "never" properties that must FAIL in
 \* a witness run, see CoopCloseMC_witness.cfg)
 NeverRefusedNoOutputs == \A p \in P : tx[p].res # "nooutputs"
+\* the RBF closer's pre-check refuses fees the opener could pay with its commit-fee / anchor credit
+NeverCantPayAffordable == \A p \in P : tx[p].res = "cantpay" => Due(tx[p].payer, tx[p].fee, tx[p].payer) < 0
 NeverTrimmedOne == \A p \in P : tx[p].res = "ok" => (tx[p].has["A"] /\ tx[p].has["B"])
 
 -----------------------------------------------------------------------------
